@@ -19,6 +19,9 @@ EVIDENCE = dict(
          "evaluates NoSharing. (ii) mutate events - every catalogue leaf kind of A (C06's catalogue: controllers, options, "
          "in-place element edits of curves, waveforms, envelope points, mappings, note cells, sample fields, links) is "
          "mutated and B's projection and saved bytes are digested before/after, in both directions; TLC requires equality. "
+         "Further probes: refused cross-project requests (also disconnects), notes cloned into another project, deep copies, an "
+         "attached MetaModule next to neighbours and copies of its embedded project, failed loads followed by assignments that "
+         "must still be refused, failures while building independent objects. "
          "non-trivial = every mutate event, and heap events with at least 3 cells per root.",
     explanation="two layers: object identity of mutable containers (heap) and observable state/bytes (value)")
 
